@@ -387,6 +387,8 @@ void run_inventory(mc::Ctx &ctx) {
 
 }  // namespace
 
+int g_history_dependent_jobs = 0;
+
 int main(int argc, char **argv) {
   mc::Runner R(argc, argv, "C19");
   R.level = "model_checking";
@@ -401,6 +403,19 @@ int main(int argc, char **argv) {
     uint64_t res[1];
     run_schedule(jobs, 1, {}, res);
     g_points[j] = S.per_thread[0];
+    if (res[0] != g_expected[j] && res[0] >= 16) {
+      // The warm main thread and a fresh thread disagree. That is a matter of call history (C06),
+      // not of concurrency; if a second fresh thread reproduces the fresh-thread result, that
+      // result is the stand-alone reference for the explored threads (each of them is fresh), and
+      // the inventory part still gets to name the hidden state.
+      uint64_t res2[1];
+      run_schedule(jobs, 1, {}, res2);
+      if (res2[0] == res[0]) {
+        fprintf(stderr, "[C19] note: job %s gives another result in a fresh thread than in the warm main thread (call-history dependence, see C06); fresh-thread result taken as reference\n", kJobs[j].name);
+        g_expected[j] = res[0];
+        g_history_dependent_jobs++;
+      }
+    }
     if (res[0] != g_expected[j] || g_expected[j] < 16) {
       fprintf(stderr, "INTERNAL: job %s is not deterministic or failed (%llu)\n", kJobs[j].name, (unsigned long long)g_expected[j]);
       return 2;
@@ -410,6 +425,7 @@ int main(int argc, char **argv) {
     std::string pj = "{";
     for (int j = 0; j < kNumJobs; ++j) pj += std::string(j ? "," : "") + "\"" + kJobs[j].name + "\":" + std::to_string(g_points[j]);
     R.extra["scheduling_points_per_job"] = pj + "}";
+    R.extra["jobs_whose_result_depends_on_call_history"] = std::to_string(g_history_dependent_jobs);
     fprintf(stderr, "[C19] scheduling points per job: %s\n", pj.c_str());
   }
   R.rule =
